@@ -198,6 +198,11 @@ func osModeConst(p *Program, name string) int64 {
 func runC17(c *Ctx) {
 	p := c.P
 	pos := func(in ssa.Instruction) string { return p.Pos(in.Pos()) }
+	checkSpecialBitsCombine(c, "R1")
+	checkTimesAreUnsigned32(c, "R8")
+	// R9 (shared with C07.R6): the attribute bytes a set-attributes request hands to the server or to the handler are
+	// the bytes its decoder validated against the flags word
+	checkAttrsValidatedAtDecode(c, "R9")
 
 	// ---------- R1 mode tables ----------
 	{
@@ -918,22 +923,7 @@ func runC17(c *Ctx) {
 		c.check(same, "R3", "SETSTAT and FSETSTAT agree", "server.go", "sibling handlers apply the same table", fmt.Sprintf("SETSTAT applies %v but FSETSTAT applies %v", a, b))
 		checkSetstatTargetsAndOrder(c, "R3")
 	}
-	if nf := p.Func("newFileAttrFlags"); nf != nil {
-		wantBits := map[string]int64{"Size": 1, "UidGid": 2, "Permissions": 4, "Acmodtime": 8}
-		for _, a := range literalsOf(nf, "FileAttrFlags") {
-			for f, bit := range wantBits {
-				got := int64(-1)
-				if b, ok := litField(a, f).(*ssa.BinOp); ok && b.Op == token.NEQ {
-					if and, ok := b.X.(*ssa.BinOp); ok && and.Op == token.AND {
-						got, _ = constInt(and.Y)
-					}
-				}
-				c.check(got == bit, "R3", "FileAttrFlags."+f, pos(a), fmt.Sprintf("flags&%#x", bit), fmt.Sprintf("FileAttrFlags.%s is decoded from bit %#x, expected %#x", f, got, bit))
-			}
-		}
-	} else {
-		c.missing("R3", "newFileAttrFlags")
-	}
+	checkAttrFlagBits(c, "R3")
 
 	// ---------- R4 client setters ----------
 	for _, s := range []struct {
@@ -1453,4 +1443,142 @@ func evalModeFunc(p *Program, name string, wireToOS bool) (*modeTable, string) {
 		t.specials[o] = got &^ base
 	}
 	return t, ""
+}
+
+// checkSpecialBitsCombine (C17.R1): the three special bits are independent — a mode with several of them converts to
+// the union of what each converts to.  Evaluated for every subset, in the three conversion functions (a ladder of
+// else-ifs, or an early return after the first bit found, passes every single-bit test and loses bits of 2048 of the
+// 4096 permission+special modes).
+func checkSpecialBitsCombine(c *Ctx, rule string) {
+	p := c.P
+	M := func(n string) int64 { return osModeConst(p, n) }
+	for _, spec := range []struct {
+		fn   string
+		bits []int64
+		base int64
+	}{
+		{"toChmodPerm", []int64{M("ModeSetuid"), M("ModeSetgid"), M("ModeSticky")}, 0o750},
+		{"fromFileMode", []int64{M("ModeSetuid"), M("ModeSetgid"), M("ModeSticky")}, 0o750},
+		{"toFileMode", []int64{0o4000, 0o2000, 0o1000}, 0x8000 | 0o750},
+	} {
+		fn := p.Func(spec.fn)
+		if fn == nil {
+			c.missing(rule, spec.fn)
+			continue
+		}
+		if len(fn.Params) != 1 {
+			c.und(rule, spec.fn+" special bits combine", p.Pos(fn.Pos()), "not a function of one mode word")
+			continue
+		}
+		call := func(v int64) (int64, bool) {
+			st := newEvaluator(p).run(fn, []evVal{evInt(v, fn.Params[0].Type())}, 0)
+			if st.kind != "return" || len(st.vals) != 1 || st.vals[0].k != evConst || st.vals[0].c.Kind() != constant.Int {
+				return 0, false
+			}
+			u, ok := constant.Uint64Val(constant.ToInt(st.vals[0].c))
+			return int64(u), ok
+		}
+		single := make([]int64, len(spec.bits))
+		okAll := true
+		for i, b := range spec.bits {
+			v, ok := call(spec.base | b)
+			if !ok {
+				okAll = false
+			}
+			single[i] = v
+		}
+		if !okAll {
+			c.und(rule, spec.fn+" special bits combine", p.Pos(fn.Pos()), spec.fn+" cannot be evaluated")
+			continue
+		}
+		wrong := ""
+		for sub := 0; sub < 1<<len(spec.bits) && wrong == ""; sub++ {
+			in, want := spec.base, int64(0)
+			n := 0
+			for i, b := range spec.bits {
+				if sub&(1<<i) != 0 {
+					in |= b
+					want |= single[i]
+					n++
+				}
+			}
+			if n < 2 {
+				continue
+			}
+			got, ok := call(in)
+			if !ok || got != want {
+				wrong = fmt.Sprintf("%s(%#o) = %#o, the union of its bits' conversions is %#o", spec.fn, in, got, want)
+			}
+		}
+		c.check(wrong == "", rule, spec.fn+" special bits combine", p.Pos(fn.Pos()), "every subset of setuid/setgid/sticky converts to the union of its members' conversions", wrong+": modes with more than one special bit lose bits")
+	}
+}
+
+// checkTimesAreUnsigned32 (C17.R8): the wire carries times as unsigned 32-bit seconds.  FileStat.ModTime/AccessTime are
+// run by the interpreter with Mtime/Atime at the edges of the range (time.Unix is taken as the identity on its
+// seconds): what comes out is the number that went in — no sign extension through int32 (times from 2038 on would come
+// back 136 years early), no truncation.
+func checkTimesAreUnsigned32(c *Ctx, rule string) {
+	p := c.P
+	fsT := p.NamedType(p.Sftp, "FileStat")
+	if fsT == nil {
+		c.missing(rule, "FileStat")
+		return
+	}
+	for _, spec := range []struct{ method, field string }{{"ModTime", "Mtime"}, {"AccessTime", "Atime"}} {
+		fn := p.methodOf(types.NewPointer(fsT), spec.method)
+		if fn == nil {
+			c.missing(rule, "(*FileStat)."+spec.method)
+			continue
+		}
+		wrong, und := "", false
+		for _, v := range []int64{0, 1, 0x7fffffff, 0x80000000, 0xfffffffe, 0xffffffff} {
+			ev := newEvaluator(p)
+			ev.opaque = func(callee *ssa.Function, args []evVal) (evVal, bool) {
+				if callee.Pkg != nil && callee.Pkg.Pkg.Path() == "time" && callee.Name() == "Unix" && len(args) == 2 {
+					return args[0], true
+				}
+				return evVal{}, false
+			}
+			obj := &evObj{typ: fsT, fields: map[string]evVal{spec.field: evInt(v, types.Typ[types.Uint32])}}
+			st := ev.run(fn, []evVal{{k: evObject, obj: obj}}, 0)
+			if st.kind != "return" || len(st.vals) != 1 || st.vals[0].k != evConst || st.vals[0].c.Kind() != constant.Int {
+				und = true
+				break
+			}
+			got, exact := constant.Int64Val(st.vals[0].c)
+			if !exact || got != v {
+				wrong = fmt.Sprintf("%s of %s = %#x is %d seconds, expected %d", spec.method, spec.field, v, got, v)
+				break
+			}
+		}
+		if und {
+			c.und(rule, "(*FileStat)."+spec.method+" is the unsigned 32-bit instant", p.Pos(fn.Pos()), "cannot be evaluated")
+			continue
+		}
+		c.check(wrong == "", rule, "(*FileStat)."+spec.method+" is the unsigned 32-bit instant", p.Pos(fn.Pos()), "time.Unix(int64(uint32 seconds), 0) over the whole range", wrong+": the time a peer sent is not the time reported")
+	}
+}
+
+// checkAttrFlagBits (C17.R3; shared as C10.R12): the four booleans a handler sees in FileAttrFlags are decoded from the
+// four attribute flag bits of the draft.
+func checkAttrFlagBits(c *Ctx, rule string) {
+	p := c.P
+	pos := func(in ssa.Instruction) string { return p.Pos(in.Pos()) }
+	if nf := p.Func("newFileAttrFlags"); nf != nil {
+		wantBits := map[string]int64{"Size": 1, "UidGid": 2, "Permissions": 4, "Acmodtime": 8}
+		for _, a := range literalsOf(nf, "FileAttrFlags") {
+			for f, bit := range wantBits {
+				got := int64(-1)
+				if b, ok := litField(a, f).(*ssa.BinOp); ok && b.Op == token.NEQ {
+					if and, ok := b.X.(*ssa.BinOp); ok && and.Op == token.AND {
+						got, _ = constInt(and.Y)
+					}
+				}
+				c.check(got == bit, rule, "FileAttrFlags."+f, pos(a), fmt.Sprintf("flags&%#x", bit), fmt.Sprintf("FileAttrFlags.%s is decoded from bit %#x, expected %#x", f, got, bit))
+			}
+		}
+	} else {
+		c.missing(rule, "newFileAttrFlags")
+	}
 }
